@@ -14,7 +14,7 @@ ASSUMPTIONS = ['a plain line can denote a password only if it is not itself of t
                'count-collapsing keeps first-occurrence order (adjacent duplicates collapsed)']
 
 WORDS = ['password', 'pass word', ' lead', 'trail ', 'two  spaces', 'ümlaut', 'пароль', 'Σίσυφος', '$HEX[41]x', '$HEX[zz]', 'a$HEX[41]',
-         '123456', 'p@ss!', '1 2 3', '５', 'tab\there', 'ctl\x01', 'nbsp\xa0x', '\xa0lead', 'x', '😀pw', '', ' ', '$HEX[]', 'q' * 30]
+         '123456', 'p@ss!', '1 2 3', '５', 'tab\there', 'ctl\x01', 'us\x1fx', '\x1flead', 'esc\x1bx', 'nul\x00x', 'del\x7fx', 'nbsp\xa0x', '\xa0lead', 'x', '😀pw', '', ' ', '$HEX[]', 'q' * 30]
 
 
 def cps(s):
@@ -199,9 +199,10 @@ def run(ctx):
             ops.append('rd.read 1 ' + cps(textC))
             exp.append(' '.join([f"n={nC}", f"e={eC}"] + [cps(p) for p in outC]))
         # skipped lines never leak: every yielded password passes check_valid and is encodable
-        from lib_trainer.trainer_file_input import check_valid
+        # (judged independently of check_valid: no C0 control character - which includes TAB and the separators U+001C..U+001F -
+        # and none of the other line boundaries of a codecs reader, U+0085, U+2028, U+2029; not empty)
         for p in outA:
-            if not check_valid(p):
+            if not p or any(ord(ch) < 0x20 or ord(ch) in (0x85, 0x2028, 0x2029) for ch in p):
                 viol.append({'property': 'C19', 'kind': 'invalid-password-yielded', 'password': p, 'witness': {'lines': [b.hex() for _, b in lines], 'encoding': enc}})
         # three passes see the same sequence
         out2 = real_read(pa, enc, False)[0]
